@@ -99,7 +99,13 @@ class St:
         return None
 
     def distinct(self, a, b):
-        return ("ne", a, b) in self.rel or ("ne", b, a) in self.rel
+        if ("ne", a, b) in self.rel or ("ne", b, a) in self.rel:
+            return True
+        # a box allocated on this path cannot be any box that existed before
+        ra, rb = alloc_root(a), alloc_root(b)
+        if (ra is not None or rb is not None) and ra != rb:
+            return True
+        return False
 
     def has(self, flag):
         return flag in self.flags
@@ -276,8 +282,8 @@ class Engine:
                 pass  # assertion certainly fails
             else:
                 out.append((t["target"], cur))
-            if isinstance(t["unwind"], int) and not (is_const(c) and (c[1] == "1") == bool(t["expected"])):
-                out.append((t["unwind"], cur))
+            if isinstance(t["unwind"], int) and not (is_const(c) and (c[1] == "1") == bool(t["expected"])) and self.overflow_possible(c, cur):
+                out.append((t["unwind"], cur.replace(flags=cur.flags | {("unwinding", b)})))
             return out
         if k == "switch":
             return self.do_switch(b, t, cur, val)
@@ -286,6 +292,15 @@ class Engine:
         if k == "call":
             return self.do_call(b, t, cur, val)
         return []
+
+    def overflow_possible(self, c, st):
+        """Can the overflow flag `c` of counter arithmetic be set, given the strong-state?"""
+        if c[0] == "field" and c[2] in ("1", 1) and c[1][0] == "bin" and c[1][1] in ("SubWithOverflow", "AddWithOverflow") and is_const(c[1][3], 1):
+            g = counter_read(c[1][2])
+            if g is not None and g[2] == "strong" and (g[0], g[1], g[2]) in st.fresh:
+                ss = st.strong(g[1])
+                return ("Z" in ss) if c[1][1].startswith("Sub") else ("U" in ss)
+        return True
 
     # ----- events ---------------------------------------------------------
     def emit(self, ev, st):
@@ -734,6 +749,29 @@ TABLE_ALLOC = {"insert", "entry", "or_insert", "or_default", "or_insert_with", "
                "with_capacity_and_hasher", "clone", "insert_unique_unchecked", "shrink_to_fit", "try_reserve"}
 VEC_ALLOC = {"push", "insert", "reserve", "with_capacity", "extend", "extend_from_slice", "resize", "append", "clone", "reserve_exact",
              "push_within_capacity", "split_off", "into_boxed_slice"}
+
+
+ALLOC_CALLS = ("core::alloc::Allocator::allocate", "core::alloc::Allocator::allocate_zeroed", "alloc::boxed::Box::<T>::new",
+               "alloc::alloc::alloc", "alloc::alloc::exchange_malloc", "alloc::boxed::Box::<T>::new_uninit")
+_alloc_cache = {}
+
+
+def alloc_root(e):
+    """Site of the allocation call the pointer expression derives from, if any."""
+    if e in _alloc_cache:
+        return _alloc_cache[e]
+    found = []
+
+    def pred(x):
+        if x[0] == "call" and x[2] in ALLOC_CALLS:
+            found.append(x[1])
+            return True
+        return False
+    mentions(e, pred)
+    r = found[0] if found else None
+    if len(_alloc_cache) < 200000:
+        _alloc_cache[e] = r
+    return r
 
 
 def counter_read(e):
